@@ -6,8 +6,13 @@ Tie: T — the built-in injected functions (DeltaR, getAttribute*, isNonnull) ar
 every run into lean/FaxVerif/Generated/C11Builtins.lean and the hypotheses of the theorems are re-proved for
 them; K — model and real code on the same inputs, at unit level (_replace_whole_words, build_CPPCodeValue,
 cpp_ast_finder) and through the whole pipeline (metadata add_cpp_function -> generated query.cxx / Analyzer.cc).
-Oracle: the decidable Specs (SubstSpec, BuildAccepts, SitesOk/NoPendingFull, PipeSpec) evaluated by the Lean
+Oracle: the decidable Specs (SubstSpec, BuildAccepts, SitesOk/NoPendingFull, PipeSpec, RegistrationSpec) evaluated by the Lean
 driver on what the implementation produced.
+Extension round (lean/FaxVerif/C11/ExtModel.lean, ExtTheorems.lean; tools/c11_lib/gen2.py): specifications carry the optional key
+`instance_object` independently of `method_object` (directed family optional keys x style x arity, at unit level and through the
+pipeline); call sites whose receiver is an Aggregate-lambda parameter standing for j.m1().m2() with formals named like those
+methods (`recv` cases: the receiver's text contains formal names — receiver and arguments must be ONE substitution); the table
+registered by apply_ast_transformations observed entry by entry (`register` cases) and one query per subset of the declared functions.
 Meaning of the built-ins' own code (tools/c11_lib/builtin_exec.py, both tiers): the code lines probed out of the source are
 compiled with g++ against stand-in ROOT headers and mock objects; DeltaR is judged on an angle grid by the Lean clause
 Angle.DeltaRGridSpec (lean/FaxVerif/C11/Angle.lean: exact integer wrap, proved canonical / equal to ROOT's Phi_mpi_pi
@@ -25,7 +30,7 @@ from c11_lib import builtin_exec, gen, gen2, impl
 
 ID = "C11"
 OWN_LEANCHECKER = True  # this module runs leanchecker itself in the thorough tier
-LEAN_MODULES = ["FaxVerif.C11.Theorems"]
+LEAN_MODULES = ["FaxVerif.C11.ExtTheorems", "FaxVerif.C11.Theorems"]  # ExtTheorems imports Theorems: one import for the axiom audit
 LEAN_SOURCES = ["FaxVerif/C11", "FaxVerif/Generated/C11Builtins.lean"]
 DRIVER = "FaxVerif/C11/Driver.lean"
 _T = "FaxVerif.C11."
@@ -38,9 +43,23 @@ THEOREMS = [_T + n for n in [
     "unique_name_injective_partial", "fresh_counterexample", "builtins_satisfy_hypotheses", "builtins_signatures", "nonnull_is_modelled",
     "wrap_is_canonical", "root_phi_mpi_pi_is_wrap", "deltaR_builtin_meaning", "deltaR_order_irrelevant", "deltaR_periodic",
     "deltaR_azimuth_bounded", "fmod_wrap_characterised", "fmod_wrap_counterexample",
+    # extension round (ExtTheorems.lean): validation with any subset of the optional keys, receiver + arguments as one
+    # substitution, registration of the declared functions under their names
+    "spec_call_accepted_iff", "instance_object_irrelevant", "no_placeholder_left", "unbound_receiver_counterexample",
+    "subst_receiver_simultaneous", "two_pass_receiver_counterexample", "registered_get", "registered_agrees_with_mkTable",
+    "callback_is_own_spec", "finder_registered", "call_site_uses_own_spec", "late_binding_counterexample",
 ]]
 RULE = (
-    "five streams. subst: template lines built from parameter names, longer words containing them, member accesses, "
+    "streams. optional keys (directed, every run): for each back end and each subset of the optional keys of a specification "
+    "(none / instance_object / method_object / both) x call style (method / function) x arity (declared / surplus / missing) one "
+    "build case and one query through the pipeline, the template mentioning the method-object word. register: 1-6 declared functions "
+    "(a name declared twice, a built-in's name re-declared), the method_names table apply_ast_transformations hands to cpp_ast_finder "
+    "observed at the point of use and every entry of interest (declared names, built-ins, an undeclared name) recovered by probing its "
+    "callback; query-subsets: three declared functions (two with the same formals), one query per non-empty subset calling exactly "
+    "that subset. query-recv: call sites whose receiver is the parameter of an Aggregate lambda standing for j.m1().m2() (chains of "
+    "1-2 methods declared by add_method_type_info), the methods named like formals / the method-object word of the called "
+    "specifications (measured: the receiver's C++ text contains a placeholder of the called method in more than half of the cases), "
+    "call trees nested to depth 2, the three back ends. subst: template lines built from parameter names, longer words containing them, member accesses, "
     "string literals and operators, with replacement lists of 1-5 bindings (receiver first, argument texts that mention "
     "other parameters, backslashes, empty text, duplicate names), exhaustive for all lines of <=5 (quick) / <=6 (thorough) "
     "characters over {a,b,+,space} x 6 binding lists, random beyond; 12% of the random lines carry non-ASCII characters on "
@@ -64,7 +83,8 @@ RULE = (
     "one); build/find/query - at least one call site of an injected function; builtin-exec - every case. Distinct = distinct input."
 )
 TRUSTED_BASE = [
-    "hand model of cpp_ast.py (Model.lean) tied to the code by the correspondence streams of this run; the built-in specifications by re-extraction (Generated/C11Builtins.lean)",
+    "hand model of cpp_ast.py (Model.lean) and of the registration in executor.apply_ast_transformations (ExtModel.lean: dict copy, comprehension, update) tied to the code by the correspondence streams of this run; the built-in specifications by re-extraction (Generated/C11Builtins.lean)",
+    "observation of the registered table: cpp_ast.cpp_ast_finder is wrapped (in the harness process only) while apply_ast_transformations runs and each callback is classified by its behaviour on probe calls of 0..6 arguments in both styles (tools/c11_lib/impl.py: registered_table / probe_handler); if the class is no longer reached through the module attribute the stream reports 'unobservable' and judges nothing",
     "the harness tools/props/c11.py + tools/c11_lib (generators; parser of the loop body of the generated C++ into declarations / plain blocks / column assignments; renaming of declared names by first occurrence; measurement of the C++ text of injection-free argument expressions by translating them alone)",
     "Python's classification of the non-ASCII characters of a case (re \\w, str.isidentifier) is passed to the model as data; on ASCII both are [A-Za-z0-9_]",
     "C++ semantics of the injected block (scoping of a braced block, visibility of the enclosing declaration) is not modelled; thorough tier compiles executable specifications with g++ and compares values",
@@ -738,13 +758,13 @@ def generated_cases(ctx):
         yield "build", gen.build_case(rng)
     for _ in range(1500 if quick else 15000):
         yield "find", gen.find_case(rng)
-    for _ in range(600 if quick else 7000):
+    for _ in range(500 if quick else 7000):
         be = rng.choice(["atlas"] * 8 + ["cms_aod", "cms_miniaod"])
         yield "query", query_case(rng, be, gen_table(be))
-    for _ in range(150 if quick else 1500):  # the table apply_ast_transformations registers, entry by entry
+    for _ in range(150 if quick else 1000):  # the table apply_ast_transformations registers, entry by entry
         be = rng.choice(["atlas"] * 4 + ["cms_aod", "cms_miniaod"])
         yield "register", gen2.register_case(rng, be, [k for k, _ in driver_table(be)])
-    for _ in range(160 if quick else 1800):  # receivers that are lambda parameters standing for j.m1().m2()…
+    for _ in range(130 if quick else 1000):  # receivers that are lambda parameters standing for j.m1().m2()…
         be = rng.choice(["atlas"] * 6 + ["cms_aod", "cms_miniaod"])
         yield "query-recv", gen2.recv_query_case(rng, be)
 
